@@ -306,3 +306,36 @@ def rf51(run):
                           'larger alignment than before appears), so e.g. allocas of 16, 4 and 16 bytes put the third block at offset 20'
                           % (fn, offv, bad), line=ks[a0]['l'])
     return n
+
+
+# ---------------------------------------------------------------------------------------------
+# RF56: link-time passes read a callee through its API view
+# ---------------------------------------------------------------------------------------------
+
+def rf56(run):
+    rule = 'RF56'
+    run.rule(rule, 'process_inlines and func_alloca_features read the instruction list and the variable count of a function that may '
+                   'already be under lazy basic-block generation (func->insns then holds the generator\'s copy, func->vars its '
+                   'temporaries) only through the API view (original_insns / original_vars_num when present): no direct use of '
+                   '<callee>->insns or VARR_LENGTH (<callee>->vars) there')
+    tu = run.tu('mir')
+    n = 0
+    for fn, names in (('process_inlines', ('called_func',)), ('func_alloca_features', ('func',))):
+        f = tu.func(fn)
+        run.functions_analysed.add(('mir', fn))
+        direct = []
+        for x in f.walk():
+            if x['k'] == 'MemberExpr' and x['n'] == 'insns' and F.src(F.strip(x['c'][0])) in names:
+                direct.append(x)
+            if x['k'] == 'CallExpr' and (x.get('callee') or '').endswith('length') and F.call_args(x) and \
+                    F.src(F.strip(F.call_args(x)[0])) in tuple('%s->vars' % nm for nm in names):
+                direct.append(x)
+        n += 1
+        ok = not direct
+        run.ob(rule, (fn,), ok, {'function': fn, 'direct uses': [F.src(d)[:50] for d in direct]})
+        if not ok:
+            run.violation(rule, f, 'direct use of the callee\'s working lists', '%s uses %s directly: for a function that has been called '
+                          'under the lazy basic-block interface this is the generator\'s transformed copy, and a module linked later '
+                          'inlines hard registers and generator temporaries (MIR_link fails with "undeclared reg")'
+                          % (fn, F.src(direct[0])[:50]), line=direct[0]['l'])
+    return n
